@@ -13,6 +13,30 @@ use crate::{
 
 use super::ParseResult;
 
+/// Nesting limit of the recursive-descent grammar, counted like the reference Lua counts its C levels
+/// (one per nested statement and one per nested sub-expression; the reference stops at 200). Deeper input
+/// is reported as a syntax error instead of overflowing the stack.
+const MAX_NEST_LEVEL: usize = 200;
+
+/// Enters one nesting level; returns false (after reporting an error) if the limit is reached.
+fn enter_nest(p: &mut LuaParser) -> bool {
+    if p.parse_config.nest_level >= MAX_NEST_LEVEL {
+        let msg = t!("code is nested too deeply");
+        // report once per run of adjacent tokens
+        if !p.errors.last().is_some_and(|e| e.message == msg) {
+            let range = p.current_token_range();
+            p.push_error(LuaParseError::syntax_error_from(&msg, range));
+        }
+        return false;
+    }
+    p.parse_config.nest_level += 1;
+    true
+}
+
+fn leave_nest(p: &mut LuaParser) {
+    p.parse_config.nest_level -= 1;
+}
+
 pub fn parse_chunk(p: &mut LuaParser) {
     let m = p.mark(LuaSyntaxKind::Block);
 
